@@ -46,7 +46,7 @@ theorem LE_LEbytes (n k : Nat) : LE (LEbytes n k) = n % 256 ^ k := by
   rw [Array.toList_ofFn]
   exact LE_list_ofFn k n
 
-theorem LEbytes_inj {n m k : Nat} (hn : n < 256 ^ k) (hm : m < 256 ^ k)
+theorem LEbytes_inj_lt {n m k : Nat} (hn : n < 256 ^ k) (hm : m < 256 ^ k)
     (h : LEbytes n k = LEbytes m k) : n = m := by
   have := congrArg LE h
   rwa [LE_LEbytes, LE_LEbytes, Nat.mod_eq_of_lt hn, Nat.mod_eq_of_lt hm] at this
